@@ -145,7 +145,7 @@ func init() {
 			for i := 0; i < n; i += 8 {
 				l = append(l, fw.Case{Idx: len(l), Kind: "pairs", N: i})
 			}
-			l = mkCases(l, "random", 16, seed, pick(tier, 1500, 20000))
+			l = mkCases(l, "random", 16, seed, pick(tier, 1500, 200000))
 			l = mkCases(l, "triples", 16, seed, pick(tier, 200000, 0))
 			if tier == "thorough" {
 				for i := 0; i < 257; i += 4 {
